@@ -19,6 +19,8 @@ def run_one(ob, r, point, seed, typed=None):
     from gsv.kernel import NumKernel, Reject
     from gsv.engine.sym import Unsupported
     from gsv import solvers
+    from gsv.engine import loader
+    loader.restore_state(r)
     k = NumKernel(r, point=point, seed=seed, typed=typed)
     undo = solvers.install_numeric(ob.solver, r, random.Random(seed))
     err = None
